@@ -249,9 +249,9 @@ theorem findings_text (files : Files) (full : Bool) :
        then some (((allReportUnits files findings_threshold_text).length : Int) - 10) else none) ∧
     (findingsText files full).rows = (findingsText files full).shown.map rowText := by
   have ht : ∀ n : Nat, findings_truncates_text full (n : Int) ↔ (full = false ∧ n > 10) := by
-    intro n; unfold findings_truncates_text; cases full <;> simp <;> omega
-  have hk : findings_kept_text = 10 := by unfold findings_kept_text; rfl
-  have ho : ∀ t : Int, findings_omitted_text t = t - 10 := by intro t; unfold findings_omitted_text; omega
+    intro n; unfold findings_truncates_text; cases full <;> grind
+  have hk : findings_kept_text = 10 := by unfold findings_kept_text; grind
+  have ho : ∀ t : Int, findings_omitted_text t = t - 10 := by intro t; unfold findings_omitted_text; grind
   simp only [findingsText, ht, hk, ho]
   cases full
   · by_cases h : (allReportUnits files findings_threshold_text).length > 10
@@ -271,9 +271,9 @@ theorem findings_markdown (files : Files) (full repo : Bool) :
     (findingsMarkdown files full repo).rows =
       (findingsMarkdown files full repo).shown.map (if repo then rowMarkdownRepo else rowMarkdown) := by
   have ht : ∀ n : Nat, findings_truncates_markdown full (n : Int) ↔ (full = false ∧ n > 10) := by
-    intro n; unfold findings_truncates_markdown; cases full <;> simp <;> omega
-  have hk : findings_kept_markdown = 10 := by unfold findings_kept_markdown; rfl
-  have ho : ∀ t : Int, findings_omitted_markdown t = t - 10 := by intro t; unfold findings_omitted_markdown; omega
+    intro n; unfold findings_truncates_markdown; cases full <;> grind
+  have hk : findings_kept_markdown = 10 := by unfold findings_kept_markdown; grind
+  have ho : ∀ t : Int, findings_omitted_markdown t = t - 10 := by intro t; unfold findings_omitted_markdown; grind
   simp only [findingsMarkdown, ht, hk, ho, (units_selected files).2]
   cases full
   · by_cases h : (allReportUnits files findings_threshold_text).length > 10
